@@ -34,6 +34,8 @@ func (s *Sim) runW1() {
 	if len(sc.RecvErrAt) > 0 {
 		s.installRecvErr(sc.RecvErrAt)
 	}
+	s.installW1Oracles()
+	s.installOperator()
 	s.bootReceiver(filepath.Join(s.ws, "r0"), 0)
 	s.bootSender(filepath.Join(s.ws, "s0"), 0)
 	if sc.OneShot {
@@ -71,13 +73,32 @@ func (s *Sim) installRecvErr(at []int) {
 		hit := want[cnt]
 		s.mu.Unlock()
 		if hit {
-			if err := os.Remove(path + ".part"); err == nil {
-				s.stat("fault:recv-part-removed")
+			// make this one Receive fail for real (the receiver cannot open
+			// the staged file) without destroying what was received so far:
+			// the file is hidden for the rest of this segment only
+			if err := os.Rename(path+".part", path+".part.hidden"); err == nil {
+				s.stat("fault:recv-part-unopenable")
 				s.noteFault()
-				s.observe("removed %s.part before receive", s.rel(path))
+				s.observe("hid %s.part for this receive", s.rel(path))
+				s.mu.Lock()
+				s.hidden = append(s.hidden, path)
+				s.mu.Unlock()
 			}
 		}
 	}
+	s.stepHooks = append(s.stepHooks, func() {
+		s.mu.Lock()
+		h := s.hidden
+		s.hidden = nil
+		s.mu.Unlock()
+		for _, p := range h {
+			if _, err := os.Stat(p + ".part"); err == nil {
+				os.Remove(p + ".part.hidden") // a fresh .part was created meanwhile
+				continue
+			}
+			os.Rename(p+".part.hidden", p+".part")
+		}
+	})
 }
 
 // expected returns, per source name, the version that must end up delivered.
